@@ -133,7 +133,7 @@ def err_tag(e):
                          ("missing columns needed", "cols"),
                          ("not in summarized rank", "rank"), ("not available for any matching", "rank"),
                          ("not in available ranks", "rank"), ("not present in summarized ranks", "rank"),
-                         ("not available for aggregation", "rank"), ("not available for this lineage", "rankavail")):
+                         ("not available for aggregation", "rank"), ("not available for this lineage", "rankavail"), ("one of the provided lingroups", "nolingroup")):
             if pat in s:
                 return "ValueError:" + tag
         return "ValueError:other"
@@ -154,6 +154,8 @@ class Case:
         self.done = []          # earlier queries of a multi-query run: csv lines (header + selected rows)
         self.layout = None      # files, each a list of (query index, row index)
         self.drop = []          # gather CSV columns removed before loading
+        self.route = 0          # per-case counter the model does not see: alternates equivalent spellings / file shapes
+        self.hist = []          # every result object earlier ops returned, with what was printed from it
 
     # ---- files ----
     def ranks(self):
@@ -164,32 +166,80 @@ class Case:
         return STD
 
     def write_files(self):
+        """the taxonomy CSV and the current query's gather CSV.  Equivalent shapes alternate with `self.route`:
+        identifier column called ident / identifiers / accession, an unrelated extra column, rank columns in another
+        order, a `taxpath` column of NCBI-style taxids (standard ranks), gather `name` column called `match_name`"""
+        self.route += 1
+        rt = self.route
         t = os.path.join(self.tmp, "tax.csv")
+        idcol = ["ident", "identifiers", "accession"][rt % 3]
         with open(t, "w", newline="") as f:
-            w = csv.writer(f)
             if self.mode == "lin":
-                w.writerow(["ident", "lin"])
+                cols = [idcol, "lin"] + (["notes"] if rt % 2 else [])
+                w = csv.DictWriter(f, cols)
+                w.writeheader()
                 for ident, cells in self.tax:
-                    w.writerow([ident, cells[0] if cells else ""])
+                    w.writerow({idcol: ident, "lin": cells[0] if cells else "", "notes": "x"} if rt % 2 else
+                               {idcol: ident, "lin": cells[0] if cells else ""})
             else:
                 ncol = max([len(c) for _, c in self.tax] + [7 if self.mode == "std" else 16])
-                w.writerow(["ident"] + self.ranks()[:ncol])
+                rcols = self.ranks()[:ncol]
+                with_taxpath = self.mode == "std" and rt % 4 in (1, 2)
+                cols = [idcol] + (list(reversed(rcols)) if rt % 5 == 3 else list(rcols))
+                if rt % 2:
+                    cols.insert(1, "notes")
+                if with_taxpath:
+                    cols.append("taxpath")
+                w = csv.DictWriter(f, cols)
+                w.writeheader()
                 for ident, cells in self.tax:
-                    w.writerow([ident] + cells + [""] * (ncol - len(cells)))
+                    cells = cells + [""] * (ncol - len(cells))
+                    row = {idcol: ident, "notes": "n/a"} if rt % 2 else {idcol: ident}
+                    row.update(zip(rcols, cells))
+                    if with_taxpath:
+                        # a taxid per (rank, names down to it): the same lineage prefix always gets the same id
+                        import zlib
+                        clean = ["" if c.strip() in ("", "NA", "na", "null", "[Blank]") else c for c in cells]
+                        row["taxpath"] = "|".join(str(zlib.crc32(";".join(clean[:i + 1]).encode()) % 10 ** 7 + 1)
+                                                  for i in range(ncol))
+                    w.writerow(row)
         g = os.path.join(self.tmp, "gather.csv")
         self.write_csv(g, self.current_lines())
         return t, g
 
+    def load_tax(self, t):
+        """the taxonomy through one of the routes the package offers"""
+        lins = self.mode == "lin"
+        ictv = self.mode == "ictv"
+        kw = dict(keep_full_identifiers=self.kf, keep_identifier_versions=self.kv, force=self.force, lins=lins, ictv=ictv)
+        if self.route % 3 == 1:
+            db = tax_utils.LineageDB.load(t, **kw)
+            tax = MultiLineageDB()
+            tax.add(db)
+        else:
+            tax = MultiLineageDB.load([t], **kw)
+        if not tax:
+            raise ValueError("No gather results loaded: empty taxonomy")      # CLI: exits with an error
+        return tax
+
     def write_csv(self, path, lines):
-        """the given CSV lines, minus the columns an older / foreign gather output would not have"""
+        """the given CSV lines, minus the columns an older / foreign gather output would not have; on every other
+        route the match name column is called `match_name` (sourmash 4.x prefetch/gather naming) and an extra column is added"""
         text = "".join(x + "\r\n" for x in lines)
-        if self.drop and lines:
+        alt = self.route % 2 == 0 and bool(lines)
+        if (self.drop or alt) and lines:
             rows = list(csv.reader(io.StringIO(text)))
             keep = [i for i, c in enumerate(rows[0]) if c not in self.drop]
             out = io.StringIO()
             wr = csv.writer(out)
-            for r in rows:
-                wr.writerow([r[i] for i in keep])
+            for j, r in enumerate(rows):
+                vals = [r[i] for i in keep]
+                if alt:
+                    if j == 0:
+                        vals = ["match_name" if c == "name" else c for c in vals] + ["extra_col"]
+                    else:
+                        vals = vals + ["zzz"]
+                wr.writerow(vals)
             text = out.getvalue()
         with open(path, "w", newline="") as f:
             f.write(text)
@@ -224,10 +274,7 @@ class Case:
         t, files = self.write_all_files()
         lins = self.mode == "lin"
         ictv = self.mode == "ictv"
-        tax = MultiLineageDB.load([t], keep_full_identifiers=self.kf, keep_identifier_versions=self.kv,
-                                  force=self.force, lins=lins, ictv=ictv)
-        if not tax:
-            raise ValueError("No gather results loaded: empty taxonomy")
+        tax = self.load_tax(t)
         res = tax_utils.check_and_load_gather_csvs(files, tax, force=False, fail_on_missing_taxonomy=self.fail,
                                                    keep_full_identifiers=self.kf,
                                                    keep_identifier_versions=self.kv, lins=lins, ictv=ictv)
@@ -239,13 +286,15 @@ class Case:
         t, g = self.write_files()
         lins = self.mode == "lin"
         ictv = self.mode == "ictv"
-        tax = MultiLineageDB.load([t], keep_full_identifiers=self.kf, keep_identifier_versions=self.kv,
-                                  force=self.force, lins=lins, ictv=ictv)
-        if not tax:
-            raise ValueError("No gather results loaded: empty taxonomy")      # CLI: exits with an error
-        res = tax_utils.check_and_load_gather_csvs([g], tax, force=False, fail_on_missing_taxonomy=self.fail,
-                                                   keep_full_identifiers=self.kf,
-                                                   keep_identifier_versions=self.kv, lins=lins, ictv=ictv)
+        tax = self.load_tax(t)
+        kw = dict(fail_on_missing_taxonomy=self.fail, keep_full_identifiers=self.kf,
+                  keep_identifier_versions=self.kv, lins=lins, ictv=ictv)
+        if self.route % 4 == 3:
+            # the single-file loader directly (what check_and_load_gather_csvs calls per file)
+            d, _hdr = tax_utils.load_gather_results(g, tax, **kw)
+            res = list(d.values())
+        else:
+            res = tax_utils.check_and_load_gather_csvs([g] if self.route % 2 else g, tax, force=False, **kw)
         assert len(res) == 1
         return res[0]
 
@@ -253,6 +302,41 @@ class Case:
         if self.mode == "lin":
             return str(r)
         return self.ranks()[r] if r < len(self.ranks()) else f"norank{r}"
+
+
+def check_views(q, cls=False):
+    """whatever can be read about a QueryTaxResult through two routes must agree (raises AssertionError)"""
+    assert len(q.raw_taxresults) >= q.n_missed + q.n_skipped
+    assert q.n_missed == sum(1 for t in q.raw_taxresults if t.missed_ident), "n_missed vs the rows flagged missed"
+    assert set(q.missed_idents) == {t.match_ident for t in q.raw_taxresults if t.missed_ident}
+    for rank, results in q.summarized_lineage_results.items():
+        if not results:
+            continue
+        classified = [r for r in results if r.lineage.filled_ranks]
+        uncl = [r for r in results if not r.lineage.filled_ranks]
+        assert len(uncl) <= 1, "two unclassified entries at one rank"
+        assert q.total_bp_classified[rank] == sum(r.bp_match_at_rank for r in classified), \
+            f"total_bp_classified[{rank}] {q.total_bp_classified[rank]} != sum of the classified entries"
+        for r in classified:
+            assert q.sum_uniq_bp[rank][r.lineage] == r.bp_match_at_rank, "sum_uniq_bp vs the entry"
+            assert r.rank == rank
+        if uncl:
+            assert sum(r.bp_match_at_rank for r in results) == q.query_info.query_bp, \
+                f"rank {rank}: classified + unclassified bp != query bp"
+            assert uncl[0].bp_match_at_rank == q.query_info.query_bp - q.total_bp_classified[rank]
+    for rank in q.summarized_ranks:
+        assert rank in q.sum_uniq_bp, "summarized rank without sums"
+    c = q.classification_result if cls else None       # (a stored classification is a snapshot: only checked when fresh)
+    if c is not None:
+        assert c.rank in q.classified_ranks
+        assert q.sum_uniq_bp[c.rank][c.lineage] == c.bp_match_at_rank
+        hdr, rows = q.make_full_summary(classification=True)
+        assert rows[0]["status"] == c.status and rows[0]["rank"] == c.rank
+        assert float(rows[0]["fraction"]) == c.fraction and rows[0]["bp_match_at_rank"] == str(c.bp_match_at_rank)
+        hum = q.make_human_summary(display_rank=c.rank, classification=True)
+        assert hum[0]["lineage"] == rows[0]["lineage"] and hum[0]["status"] == c.status
+        if q.krona_classified is not None:
+            assert q.krona_classified[0] == c.fraction
 
 
 def show_res(q, res):
@@ -344,6 +428,21 @@ def writer_on(case, q, name, a):
     return "ok " + " ".join(t) if t else "ok"
 
 
+def recheck(case):
+    """every result object earlier ops returned is looked at again: nothing a later call did may have changed it"""
+    n = 0
+    for q, kind, _, out in case.hist:
+        if kind == "table":
+            now = table(q)
+            assert now == out, f"an earlier summarised table changed after later calls: {out[:2]} -> {now[:2]}"
+            check_views(q)
+        elif kind == "cls":
+            c = q.classification_result
+            assert (c.status, c.rank, c.fraction, c.bp_match_at_rank) == out, "an earlier classification changed after later calls"
+        n += 1
+    return n
+
+
 def float_op(op, a):
     a, b, c, d = map(int, a)
     if b == 0 or d == 0:
@@ -357,7 +456,7 @@ def cli(case, argv):
     from sourmash.__main__ import main
     set_quiet(True, True)
     old = sys.stdout
-    sys.stdout = io.StringIO()
+    sys.stdout = buf = io.StringIO()
     try:
         try:
             rc = main(argv)
@@ -367,6 +466,7 @@ def cli(case, argv):
     finally:
         sys.stdout = old
         set_quiet(True, True)
+        case.last_stdout = buf.getvalue()
     return rc
 
 
@@ -425,6 +525,71 @@ def do_x(case, w):
         hdr, res = q.make_full_summary(classification=True)
         return (f"ok {enc(';'.join(d[r] for r in ranks).rstrip(';'))} {res[0]['status']} "
                 f"{canon(float(res[0]['fraction']))} {enc(res[0]['lineage'])}")
+    if op == "xannot":
+        # `tax annotate` through the command line, then its output used as the taxonomy (`-t x.with-lineages.csv`)
+        t, g = case.write_files()
+        outdir = os.path.join(case.tmp, "annot")
+        shutil.rmtree(outdir, ignore_errors=True)
+        os.makedirs(outdir)
+        argv = ["tax", "annotate", "-g", g, "-t", t, "-o", outdir, "-q"]
+        if case.mode == "lin":
+            argv.append("--lins")
+        if case.mode == "ictv":
+            argv.append("--ictv")
+        if case.force:
+            argv.append("-f")
+        rc = cli(case, argv)
+        wl = os.path.join(outdir, "gather.with-lineages.csv")
+        if rc != 0 or not os.path.exists(wl):
+            return f"ok rc={rc}"
+        rows = list(csv.DictReader(open(wl, newline="")))
+        # the lineage column must be the taxonomy's lineage of that match
+        q.build_summarized_result()
+        want = {tr.raw.name: (tr.lineageInfo.display_lineage(truncate_empty=True) if not tr.missed_ident else "")
+                for tr in q.raw_taxresults}
+        namecol = "name" if "name" in rows[0] else "match_name"
+        assert all(r["lineage"] == want[r[namecol]] for r in rows), "annotate wrote another lineage than the taxonomy has"
+        lins = case.mode == "lin"
+        ictv = case.mode == "ictv"
+        tax2 = MultiLineageDB.load([wl], lins=lins, ictv=ictv)
+        q2 = tax_utils.check_and_load_gather_csvs([g], tax2, lins=lins, ictv=ictv)[0]
+        q2.build_summarized_result()
+        return "ok rc=0 " + " ".join(table(q2))
+    if op == "xsqltax":
+        # the taxonomy converted to the sqlite format (`tax prepare -F sql`) and read back
+        t, g = case.write_files()
+        tax = case.load_tax(t)
+        sq = os.path.join(case.tmp, "tax.sqldb")
+        if os.path.exists(sq):
+            os.unlink(sq)
+        tax.save(sq, "sql")
+        tax2 = MultiLineageDB.load([sq], keep_full_identifiers=case.kf, keep_identifier_versions=case.kv)
+        assert len(tax2) == len(tax) and set(tax2) == set(tax), "identifiers differ after the sqlite round trip"
+        q2 = tax_utils.check_and_load_gather_csvs([g], tax2, fail_on_missing_taxonomy=case.fail, keep_full_identifiers=case.kf,
+                                                  keep_identifier_versions=case.kv)[0]
+        q2.build_summarized_result()
+        return "ok " + " ".join(table(q2))
+    if op in ("xlingroup", "xclslg"):
+        lgf = os.path.join(case.tmp, "lingroups.csv")
+        prefixes = [dec(x) for x in (w[1].split(",") if w[1] != "-" else [])]
+        with open(lgf, "w", newline="") as f:
+            wr = csv.writer(f)
+            wr.writerow(["name", "lin"])
+            for i, pfx in enumerate(prefixes):
+                wr.writerow([f"grp{i}", pfx])
+        lingroups = tax_utils.read_lingroups(lgf)
+        if op == "xlingroup":
+            q.build_summarized_result()
+            header, rows = q.make_lingroup_results(lingroups)
+            fp = io.StringIO()
+            tax_utils.write_output(header, rows, fp, sep="\t", write_header=True)
+            rr = list(csv.DictReader(io.StringIO(fp.getvalue()), delimiter="\t"))
+            return "ok " + " ".join(sorted(f"{enc(r['lin'])}|{r['percent_containment']}|{r['num_bp_contained']}" for r in rr))
+        lg_ranks, all_lgs = tax_utils.parse_lingroups(lingroups)
+        q.build_classification_result(containment_threshold=int(w[2]) / int(w[3]), lingroup_ranks=lg_ranks, lingroups=all_lgs)
+        c = q.classification_result
+        return (f"ok {c.status} {list(q.ranks).index(c.rank)} {enc(c.lineage.display_lineage(null_as_unclassified=True))} "
+                f"{canon(c.fraction)} {c.bp_match_at_rank}")
     if op == "xcli":
         # xcli metagenome <rank|-> fmt,fmt,...   |   xcli genome <rank|-> <p> <q> fmt,...
         t, g = case.write_files()
@@ -441,6 +606,25 @@ def do_x(case, w):
             fmts = w[5].split(",")
         else:
             fmts = w[3].split(",")
+        variant = w[-1] if w[-1] in ("fromfile", "dupg", "forcebad", "stdout") else None
+        if variant == "fromfile":
+            pl = os.path.join(case.tmp, "gather_files.txt")
+            with open(pl, "w") as f:
+                f.write("".join(x + "\n" for x in gfiles + gfiles[:1]))        # one path listed twice
+            # the first CSV also on the command line: a path given both ways counts once
+            gi = argv.index("-g")
+            argv = argv[:gi] + ["-g", gfiles[0], "--from-file", pl] + argv[gi + 1 + len(gfiles):]
+        elif variant == "dupg":
+            gi = argv.index("-g")
+            argv = argv[:gi + 1] + gfiles + gfiles[:1] + argv[gi + 1 + len(gfiles):]
+        elif variant == "forcebad":
+            badf = os.path.join(case.tmp, "bad.csv")
+            open(badf, "w").write("")
+            gi = argv.index("-g")
+            argv = argv[:gi + 1] + gfiles + [badf] + argv[gi + 1 + len(gfiles):] + ["-f"]
+        elif variant == "stdout":
+            oi = argv.index("-o")
+            argv = argv[:oi] + argv[oi + 4:]          # default output base '-': csv_summary goes to stdout, floats cut to 3 decimals
         argv += ["-F"] + fmts
         if rank is not None:
             argv += ["-r", rank]
@@ -459,6 +643,11 @@ def do_x(case, w):
         rc = cli(case, argv)
         parts = [f"rc={rc}"]
         ranks = list(q.ranks)
+        if variant == "stdout" and rc == 0:
+            rows = list(csv.DictReader(io.StringIO(case.last_stdout)))
+            parts.append("csvlim=" + ",".join(
+                f"{ranks.index(r['rank'])}|{enc(r['lineage'])}|{r['fraction']}|{r['f_weighted_at_rank']}|{r['bp_match_at_rank']}"
+                for r in rows))
         p = os.path.join(outdir, "out.summarized.csv")
         if os.path.exists(p):
             rows = list(csv.DictReader(open(p, newline="")))
@@ -613,15 +802,45 @@ def step(case, w):
     if op == "sum":
         q = case.load()
         single = case.rank_name(q, int(a[0])) if a else None
+        if case.route % 2:
+            q.summarize_up_ranks(single_rank=single)        # the two-step spelling
         q.build_summarized_result(single_rank=single)
+        check_views(q)
         t = table(q)
+        assert t == table(q), "reading the summarised table twice gives different rows"
+        case.hist.append((q, "table", None, list(t)))
         return "ok " + " ".join(t) if t else "ok"
     if op == "sopen":
         case.sess = None
         q = case.load()
         q.build_summarized_result()
         case.sess = q
+        check_views(q)
         return "ok"
+    if op == "snew":
+        case.sess = None
+        case.sess = case.load()
+        return "ok"
+    if op == "sbuild":
+        q = getattr(case, "sess", None)
+        if q is None or len(a) != 2 or a[1] not in ("0", "1"):
+            return "bad-op"
+        single = None if a[0] == "-" else case.rank_name(q, int(a[0]))
+        q.build_summarized_result(single_rank=single, force_resummarize=a[1] == "1")
+        check_views(q)
+        return "ok"
+    if op == "scls":
+        q = getattr(case, "sess", None)
+        if q is None or len(a) != 4 or a[3] not in ("0", "1") or (a[1] != "none" and int(a[2]) == 0):
+            return "bad-op"
+        rank = None if a[0] == "-" else case.rank_name(q, int(a[0]))
+        thr = None if a[1] == "none" else int(a[1]) / int(a[2])
+        q.build_classification_result(rank=rank, containment_threshold=thr, ani_threshold=None,
+                                      force_resummarize=a[3] == "1")
+        check_views(q, cls=True)
+        c = q.classification_result
+        return (f"ok {c.status} {list(q.ranks).index(c.rank)} {enc(c.lineage.display_lineage(null_as_unclassified=True))} "
+                f"{canon(c.fraction)} {canon(c.f_weighted_at_rank)} {c.bp_match_at_rank}")
     if op in ("scsv", "shuman", "skrona", "slsum", "skreport", "sbioboxes"):
         # the writers on ONE QueryTaxResult, in whatever order the case asks for (as one `tax metagenome -F a b c` does)
         q = getattr(case, "sess", None)
@@ -651,7 +870,9 @@ def step(case, w):
         q = case.load()
         rank = None if r == "-" else case.rank_name(q, int(r))
         q.build_classification_result(rank=rank, containment_threshold=thr, ani_threshold=None)
+        check_views(q, cls=True)
         c = q.classification_result
+        case.hist.append((q, "cls", None, (c.status, c.rank, c.fraction, c.bp_match_at_rank)))
         return (f"ok {c.status} {list(q.ranks).index(c.rank)} {enc(c.lineage.display_lineage(null_as_unclassified=True))} "
                 f"{canon(c.fraction)} {canon(c.f_weighted_at_rank)} {c.bp_match_at_rank}")
     if op == "kreport":
@@ -705,6 +926,8 @@ def step(case, w):
         tr.keep_identifier_versions = kv == "1"
         tax_utils.BaseTaxResult.get_ident(tr)
         return f"ok {enc(g1)} {enc(tr.match_ident)}"
+    if op == "xrecheck":
+        return f"ok {recheck(case)}"
     if op.startswith("x"):
         return do_x(case, w)
     return "bad-op"
